@@ -534,6 +534,16 @@ def project_edits(ps, loc, g, out, limit=None):
         if v is None:
             continue
         mine.append(Edit(f"{base}/{f}", (lambda root, f=f, v=v: setattr(nav(root, loc), f, v)), v, cls="project"))
+    # fields that come in pairs are set to the SAME value (both grids 7, both positions 3): each keeps its own chunk
+    for a_, b_ in (("time_grid", "time_grid2"), ("timeline_position", "restart_position"), ("modules_x_offset", "modules_y_offset"), ("initial_bpm", "initial_tpl")):
+        if a_ in ps and b_ in ps and ps[a_] != ps[b_] and ps[b_] not in (0, 4):
+            mine.append(Edit(f"{base}/{a_}", (lambda root, f=a_, v=ps[b_]: setattr(nav(root, loc), f, v)), ps[b_], cls="project-paired-fields"))
+        elif a_ in ps and b_ in ps:
+            v_ = 7 if ps[a_] != 7 else 9
+            def both(root, fa=a_, fb=b_, v=v_):
+                setattr(nav(root, loc), fb, v)
+                setattr(nav(root, loc), fa, v)
+            mine.append(Edit(f"{base}/{a_}", both, v_, coupled=True, cls="project-paired-fields"))
     for i, ms in enumerate(ps["modules"]):
         if ms is not None:
             module_edits(ms, loc + (("modules", i),), g, "project", mine)
